@@ -1178,3 +1178,76 @@ func splitPath(p string) []string {
 	}
 	return append(out, cur)
 }
+
+// IsVar reports whether v denotes the single-assignment variable initialised
+// with src: v is src itself, or a load of a local cell (a variable spilled
+// because a closure captures it) whose every store — in the function and in
+// the literals capturing it — stores src.
+func IsVar(v ssa.Value, src ssa.Value) bool {
+	if v == nil || src == nil {
+		return false
+	}
+	if v == src {
+		return true
+	}
+	u, ok := v.(*ssa.UnOp)
+	if !ok || u.Op != token.MUL {
+		return false
+	}
+	var cell ssa.Value = u.X
+	if fv, ok := cell.(*ssa.FreeVar); ok {
+		cell = ResolveFreeVar(fv)
+	}
+	a, ok := cell.(*ssa.Alloc)
+	if !ok {
+		return false
+	}
+	stores, good := 0, 0
+	for _, use := range CellUses(a) {
+		st, ok := use.Instr.(*ssa.Store)
+		if !ok {
+			continue
+		}
+		addr := st.Addr
+		if fv, ok := addr.(*ssa.FreeVar); ok {
+			addr = ResolveFreeVar(fv)
+		}
+		if addr != ssa.Value(a) {
+			continue
+		}
+		stores++
+		if st.Val == src {
+			good++
+		}
+	}
+	return stores >= 1 && stores == good
+}
+
+// ResolveFreeVar follows a free variable to the value bound at closure creation.
+func ResolveFreeVar(fv *ssa.FreeVar) ssa.Value {
+	fn := fv.Parent()
+	idx := -1
+	for i, f := range fn.FreeVars {
+		if f == fv {
+			idx = i
+		}
+	}
+	parent := fn.Parent()
+	if parent == nil || idx < 0 {
+		return nil
+	}
+	for _, b := range parent.Blocks {
+		for _, in := range b.Instrs {
+			mc, ok := in.(*ssa.MakeClosure)
+			if !ok || mc.Fn != ssa.Value(fn) {
+				continue
+			}
+			v := mc.Bindings[idx]
+			if inner, ok := v.(*ssa.FreeVar); ok {
+				return ResolveFreeVar(inner)
+			}
+			return v
+		}
+	}
+	return nil
+}
